@@ -4,8 +4,9 @@
 //! usage: replay_matrix <scenarios.ndjson> <trace.ndjson> [--mutate <k>]
 //!
 //! Scenario line: {"sid":int,"sc":{n,ctor,ml,mu,pat,op,i,j,s,bkind,bml,bmu,bpat},"initA":[ints],"wsA":[[i,j,v]..],"wsB":[..]}
-//!                (two-operation scenarios add op2, i2, j2, s2, ckind, cml, cmu, cpat to sc and "wsC")
-//! Trace line:    {"sid","act":"ctorA|fillA|ctorB|fillB|op|ctorC|fillC|op2","panic":bool,"entries":[[int]],"kind":"I|F|B","ml","mu",
+//!                (two-operation scenarios add op2, i2, j2, s2, ckind, cml, cmu, cpat to sc and "wsC";
+//!                 sc.pf != 0: A, and B unless it is an Identity, is handed to Matrix::fill(pf) before its writes)
+//! Trace line:    {"sid","act":"ctorA|prefillA|fillA|ctorB|prefillB|fillB|op|ctorC|fillC|op2","panic":bool,"entries":[[int]],"kind":"I|F|B","ml","mu",
 //!                 "len","data":[int],"val":bool, ("sc": scenario record, on ctorA lines)}
 //! Numbers (entries, data, write values, scalars) are the graded values of spec/matrix/Graded.tla, m * 2^(80 e) with
 //! |m| < 100000 and e in -3..3, carried as the integer code m + e * 2000000 (zero is 0; a small integer is its own code):
@@ -224,6 +225,12 @@ fn main() {
             Ok(m) => { out.line(sid, "ctorA", Some(sc), false, Some(&m), n, false, &op); m }
             Err(_) => { out.line(sid, "ctorA", Some(sc), true, None, n, false, &op); Matrix::zeros(n, n) }
         };
+        // optional prefill: the public whole-buffer operation Matrix::fill
+        let pf = sc.get("pf").and_then(|v| v.as_i64()).unwrap_or(0);
+        if pf != 0 {
+            let p = catch(|| a.fill(decode(pf))).is_err();
+            out.line(sid, "prefillA", None, p, Some(&a), n, false, &op);
+        }
         // fillA
         let p = writes(&mut a, &rec["wsA"]);
         out.line(sid, "fillA", None, p, Some(&a), n, false, &op);
@@ -236,6 +243,10 @@ fn main() {
             match catch(|| construct(bctor, n, bml, bmu, &[])) {
                 Ok(m) => { out.line(sid, "ctorB", None, false, Some(&m), n, false, &op); b = m; }
                 Err(_) => { out.line(sid, "ctorB", None, true, None, n, false, &op); }
+            }
+            if pf != 0 && st(sc, "bkind") != "I" {
+                let p = catch(|| b.fill(decode(pf))).is_err();
+                out.line(sid, "prefillB", None, p, Some(&b), n, false, &op);
             }
             let p = writes(&mut b, &rec["wsB"]);
             out.line(sid, "fillB", None, p, Some(&b), n, false, &op);
